@@ -102,6 +102,29 @@ func scenarios() map[string]scenario {
 		build:  with(pushMan("r1", "", imgA, mtImage), pushMan("r1", "t1", ixA, mtIndex)),
 		attack: []memsim.Op{pushMan("r1", "", ixA, "text/plain"), delMan("r1", imgA), delBlob("r1", layer1), getTag("r1", "t1")},
 	}
+	// descriptors with the optional members of the image-spec descriptor (urls, annotations,
+	// platform, embedded data): they refer to their blobs like any other descriptor
+	{
+		m := ocispec.Manifest{MediaType: mtImage, Config: descOf(ocispec.MediaTypeImageConfig, config)}
+		m.SchemaVersion = 2
+		l1 := descOf("application/vnd.oci.image.layer.nondistributable.v1.tar", layer1)
+		l1.URLs = []string{"https://example.com/layer-one"}
+		l2 := descOf("application/layer", layer2)
+		l2.Annotations = map[string]string{"org.example.k": "v"}
+		l2.Data = layer2
+		m.Layers = []ocispec.Descriptor{l1, l2}
+		m.Config.URLs = []string{"https://example.com/config"}
+		imgU, _ := json.Marshal(m)
+		child := descOf(mtImage, imgU)
+		child.Platform = &ocispec.Platform{Architecture: "arm64", OS: "linux"}
+		child.URLs = []string{"https://example.com/child"}
+		ixU := indexBytes(nil, child)
+		sc["optional_descriptor_members"] = scenario{
+			build: with(pushMan("r1", "", imgU, mtImage), pushMan("r1", "t1", ixU, mtIndex), pushMan("r1", "t2", imgU, mtImage)),
+			attack: []memsim.Op{delBlob("r1", layer1), delBlob("r1", layer2), delBlob("r1", config), delMan("r1", imgU),
+				getBlob("r1", layer1), getBlob("r1", layer2), getTag("r1", "t1"), getTag("r1", "t2")},
+		}
+	}
 	// re-tagging
 	sc["retag"] = scenario{
 		build: with(pushMan("r1", "t1", imgA, mtImage), pushMan("r1", "", imgB, mtImage)),
